@@ -49,6 +49,33 @@ WEAK = """(define wb-dead (let ((target (box 42))) (make-weak-box target)))
 (verif-emit (weak-box-value wb-dead))
 (verif-emit (if (weak-box-value wb-live) 'live-target-still-visible 'live-target-reported-dead))"""
 
+# natural-policy programs that allocate directly in self tail-recursive loops (natively compiled when the unit is run as a
+# module: the allocation then goes through the native code generator's helpers) and garbage that is created on one thread
+# and dropped on another (at most 1 000 messages in flight: the producer waits for an acknowledgement per batch).  name -> (text, ceiling for the value / vector slot vectors; unchanged tree: 256 and 25 856)
+DIRECT = {
+    "tail-loops-allocating-boxes-vectors-structs": ("""(define (churn-box i) (if (= i 0) 'done (begin (box i) (churn-box (- i 1)))))
+(define (churn-vec i) (if (= i 0) 'done (begin (vector i i) (churn-vec (- i 1)))))
+(define (churn-struct i) (if (= i 0) 'done (begin (vf-node i) (churn-struct (- i 1)))))
+(define samples '())
+(define (sample!) (set! samples (cons (#%verif-heap-stats) samples)))
+(churn-box N) (sample!) (churn-box N) (sample!) (churn-box N) (churn-box N) (sample!) (churn-vec N) (churn-vec N) (sample!) (churn-struct N) (churn-struct N) (sample!)
+(verif-emit (map (lambda (s) (list (list-ref s 0) (list-ref s 3))) samples))""", 100000),
+    "garbage-made-on-one-thread-dropped-on-another": ("""(define ch (channels/new))
+(define tx (channels-sender ch))
+(define rx (channels-receiver ch))
+(define ack (channels/new))
+(define (send-batch i k) (if (= k 0) i (begin (channel/send tx (cons (box i) (vector i))) (send-batch (+ i 1) (- k 1)))))
+(define (producer batches) (let loop ((b 0) (i 0)) (if (< b batches) (let ((next (send-batch i 1000))) (channel/recv (channels-receiver ack)) (loop (+ b 1) next)) 'sent)))
+(define samples '())
+(define t (spawn-native-thread (lambda () (producer (quotient (* 6 N) 1000)))))
+(define (consume-batch k acc) (if (= k 0) acc (consume-batch (- k 1) (+ acc (vector-length (cdr (channel/recv rx)))))))
+(define (consume batches) (let loop ((b 0) (acc 0)) (if (< b batches) (let ((a (consume-batch 1000 acc))) (channel/send (channels-sender ack) b) (loop (+ b 1) a)) acc)))
+(define (rounds k) (if (= k 0) 'done (begin (consume (quotient N 1000)) (set! samples (cons (#%verif-heap-stats) samples)) (rounds (- k 1)))))
+(rounds 6)
+(thread-join! t)
+(verif-emit (map (lambda (s) (list (list-ref s 0) (list-ref s 3))) samples))""", 250000),
+}
+
 SLACK = 24
 
 
@@ -84,6 +111,24 @@ def main(tier):
             cid = "%s|natural:%s|%d" % (cname, name, n_big)
             meta[cid] = ("natural", name, n_big, 0, 0, cname, env, text)
             cases.append({"id": cid, "units": [text], "timeout_ms": 900000, "no_vals": True, "env": env, "mem_mb": 12288})
+        for name, (body, ceiling) in DIRECT.items():
+            nd = 200000 if tier == "quick" else 2000000
+            for as_module in (False, True):
+                cid = "%s|direct:%s|%s" % (cname, name, "module" if as_module else "top")
+                text = PRELUDE + "\n" + body.replace("N", str(nd))
+                meta[cid] = ("direct", name, nd, ceiling, as_module, cname, env, text)
+                cases.append({"id": cid, "units": [text], "timeout_ms": 600000, "no_vals": True, "env": env, "as_module": as_module})
+        # a history of top-level evaluations on one engine that keeps redefining two globals bound to fresh mutable storage:
+        # what a redefinition shadows is garbage (after the global-slot recycler has run)
+        n1, n2 = (1500, 4500) if tier == "quick" else (5000, 25000)
+        units = [PRELUDE, "(verif-emit (stats))"]
+        for i in range(n2):
+            units.append("(define payload (vector (box %d) (box %d) (box %d)))\n(define other%d (box %d))" % (i, i, i, i % 3, i))
+            if i + 1 in (n1, n2):
+                units.append("(verif-emit (stats))")
+        cid = "%s|redefine" % cname
+        meta[cid] = ("redefine", "redefinition-history", n2, n1, 0, cname, env, "\n".join(units[:6]) + "\n...")
+        cases.append({"id": cid, "units": units, "timeout_ms": 600000, "no_vals": True, "env": env})
         cid = "%s|weak" % cname
         meta[cid] = ("weak", "weak-box", 0, 0, 0, cname, env, PRELUDE + "\n" + WEAK)
         cases.append({"id": cid, "units": [PRELUDE + "\n" + WEAK], "timeout_ms": 60000, "no_vals": True, "env": env})
@@ -109,15 +154,16 @@ def main(tier):
             ev = [e for e in (res.get("events") or []) if e[2] == "!accounting-mismatch"]
             rep.violation("C19 %s: free-slot accounting disagrees with the slots flagged free after a full collection" % name,
                           "config=%s events=%s" % (cname, json.dumps(ev[:2])), replay)
-        if res["status"] != "ok" or not res["units"] or not res["units"][0].get("ok"):
-            u = res["units"][0] if res["units"] else {}
+        if res["status"] != "ok" or not res["units"] or not all(u_.get("ok") for u_ in res["units"]):
+            bad_units = [u_ for u_ in res["units"] if not u_.get("ok")]
+            u = bad_units[0] if bad_units else {}
             if res["status"] == "timeout":
                 rep.inconclusive_note("timeout: %s %s" % (cname, name))
             else:
                 rep.violation("C19 %s: run failed (%s)" % (name, res["status"] if res["status"] != "ok" else u.get("kind")),
                               "config=%s err=%s stderr=%s" % (cname, u.get("err"), res.get("stderr_tail", "")[-200:]), replay)
             continue
-        em = res["units"][0].get("emits") or []
+        em = res["units"][-1].get("emits") or [] if kind in ("direct",) else res["units"][0].get("emits") or []
         if kind == "pattern":
             if len(em) != 3:
                 rep.inconclusive_note("%s: expected 3 measurements" % name)
@@ -140,6 +186,36 @@ def main(tier):
             elif len(rep.coverage["samples"]) < 6:
                 rep.sample({"pattern": name, "config": cname, "n": n, "live_values_before_after": [lv0, lv2],
                             "live_vectors_before_after": [vv0, vv2], "slots": [s2[0], s2[3]]})
+        elif kind == "direct":
+            ceiling = lv
+            pairs = ints(em[0]) if em else []
+            vals, vecs = pairs[0::2], pairs[1::2]
+            rep.nontrivial(cid)
+            if not vals:
+                rep.inconclusive_note("%s: no samples" % name)
+                continue
+            natural_runs["%s/%s/%s" % (cname, name, "module" if lvec else "top")] = {
+                "allocations_per_loop": n, "peak_value_slots": max(vals), "peak_vector_slots": max(vecs),
+                "native_calls": cnt.get("JIT_NATIVE_CALLS", 0), "full_collections": cnt.get("FULL_COLLECTIONS", 0),
+                "maxrss_mb": (res.get("maxrss_kb") or 0) // 1024}
+            if max(vals) > ceiling or max(vecs) > ceiling:
+                rep.violation("C19 natural:%s: the heap grows with the number of short-lived allocations (%s)" % (name, "compiled as a module" if lvec else "top level"),
+                              "config=%s loop length=%d ceiling=%d value slots (newest first)=%s vector slots=%s" % (cname, n, ceiling, vals, vecs), replay)
+        elif kind == "redefine":
+            n1, n2 = lv, n
+            meas = [ints(e_) for u_ in res["units"] for e_ in (u_.get("emits") or [])]
+            rep.nontrivial(cid)
+            if len(meas) != 3:
+                rep.inconclusive_note("redefinition history: expected 3 measurements, got %d" % len(meas))
+                continue
+            lives = [m_[0] - m_[2] for m_ in meas]
+            vlives = [m_[3] - m_[5] for m_ in meas]
+            natural_runs["%s/redefinition-history" % cname] = {"redefinitions": [0, n1, n2], "live_values": lives, "live_vectors": vlives,
+                                                               "recycler_runs": cnt.get("RECYCLER_RUNS", 0), "slots_recycled": cnt.get("SLOTS_RECYCLED", 0)}
+            # every redefinition makes 4 boxes and 1 vector garbage; a leak of one binding in eight would show
+            if lives[2] - lives[1] > (n2 - n1) * 4 // 8 or vlives[2] - vlives[1] > (n2 - n1) // 8:
+                rep.violation("C19 redefinition history: storage held by shadowed global bindings stays live",
+                              "config=%s live values after 0/%d/%d redefinitions: %s, live vectors: %s" % (cname, n1, n2, lives, vlives), replay)
         elif kind == "natural":
             pairs = ints(em[0]) if em else []
             vals = pairs[0::2]
